@@ -106,3 +106,13 @@ Theorem C02_RandomSizedCrop_box_uses_the_image_window : forall sd sh sw b hs ws 
   crop_bbox_by_coords b (get_random_crop_coords r c s ch cw cd hs ws 0) ch cw cd r c s.
 Proof. exact RandomSizedCrop_bbox_uses_the_image_window. Qed.
 Print Assumptions C02_RandomSizedCrop_box_uses_the_image_window.
+
+(* every named parameter of a target path (apply, apply_to_mask, apply_to_bbox, apply_to_keypoint, ...) of every
+   transform class is one the class's parameter methods put into the shared parameter dictionary, so no box path can
+   silently fall back to a default plane / offset / factor while the image follows the drawn one; the one formal
+   that is never supplied, RandomSizedCrop's d_start, is unsupplied for every target alike (regenerated table) *)
+From DV.gen Require Import Gen_classtab.
+From DV.proofs Require Import ClassFacts CF_C01.
+Theorem C02_every_parameter_a_target_path_names_is_supplied : forallb param_row_ok param_table = true.
+Proof. exact target_path_parameters_are_supplied. Qed.
+Print Assumptions C02_every_parameter_a_target_path_names_is_supplied.
